@@ -117,7 +117,21 @@ class Gen:
             choices += ["call", "call"]
         if "create" in self.f and depth > 0:
             choices += ["create"]
+        if "symcall" in self.f:
+            choices = ["symcall", "symcall", "symcall", "extcode", "extcode", "mstore", "call", "if"]
+        if "valuecall" in self.f and self.pool:
+            choices = ["valuecall", "valuecall", "valuecall", "valuecall", "mstore", "call"] + (["if", "guard"] if depth > 0 else [])
+        if "callfail" in self.f and self.pool:
+            choices += ["call_bump", "call_bump", "call"]
         k = r.choice(choices)
+        if k == "symcall":
+            return self.symcall()
+        if k == "extcode":
+            return self.sym_address() + [r.choice(["EXTCODESIZE", "EXTCODEHASH", "BALANCE"]), ("push", r.choice([0, 32, 64])), "MSTORE"]
+        if k == "valuecall":
+            return self.valuecall()
+        if k == "call_bump":
+            return self.call_bump()
         if k == "mstore":
             return self.expr(2) + [("push", r.choice([0, 32, 64, 1, 33])), "MSTORE"]
         if k == "mstore8":
@@ -208,6 +222,63 @@ class Gen:
             items += [("push", r.choice([0, 32])), "PUSH0", ("push", 160), "RETURNDATACOPY"] if False else ["RETURNDATASIZE", ("push", 160), "MSTORE"]
         return items
 
+    def sym_address(self):
+        """an address-valued expression depending on an input, possibly with dirty upper bits"""
+        r = self.r
+        c = r.random()
+        if c < 0.55:
+            return self.arg()
+        if c < 0.75:
+            return self.arg() + [("pushn", 20, (1 << 160) - 1), "AND"]
+        if c < 0.85:
+            return ["CALLER"]
+        # one of two pool members selected by an input bit: ITE-shaped address
+        a, b = r.sample(self.pool, 2) if len(self.pool) >= 2 else (0x1000, 0xC0FFEE)
+        return self.arg() + [("push", 1), "AND", ("push", a ^ b), "MUL", ("push", a), "XOR"]
+
+    def symcall(self):
+        """a call whose target is not a concrete address: halmos has to enumerate the aliases"""
+        r = self.r
+        kind = r.choice(["CALL", "CALL", "STATICCALL", "DELEGATECALL", "CALLCODE"])
+        pre = self.expr(1) + [("push", 0), "MSTORE"]
+        ret_size, ret_off = r.choice([0, 32, 64]), r.choice([64, 96])
+        items = pre + [("push", ret_size), ("push", ret_off), ("push", r.choice([0, 32, 36])), ("push", 0)]
+        if kind in ("CALL", "CALLCODE"):
+            items += [("push", r.choice([0, 0, 0, 1]))]
+        items += self.sym_address() + [("push", 100000), kind, ("push", 128), "MSTORE", "RETURNDATASIZE", ("push", 160), "MSTORE"]
+        return items
+
+    def valuecall(self):
+        """value-bearing CALL / CALLCODE: sufficient and insufficient balances must both be explored"""
+        r = self.r
+        kind = r.choice(["CALL", "CALL", "CALL", "CALLCODE"])
+        to = r.choice(self.pool + [0xC0FFEE])
+        c = r.random()
+        if c < 0.3:
+            value = [("push", r.choice([1, 2, 1000, 10 ** 18]))]
+        elif c < 0.6:
+            value = self.arg()
+        elif c < 0.75:
+            value = ["SELFBALANCE"]
+        elif c < 0.9:
+            value = ["SELFBALANCE", ("push", 1), "ADD"]
+        else:
+            value = ["CALLVALUE"]
+        items = [("push", 32), ("push", 64), ("push", 0), ("push", 0)] + value + [("push", to), ("push", 100000), kind, ("push", 128), "MSTORE"]
+        if r.random() < 0.5:
+            items += ["SELFBALANCE", ("push", 160), "MSTORE"]
+        return items
+
+    def call_bump(self):
+        """call (to a callee with several failing paths), then bump a scalar slot and publish it"""
+        r = self.r
+        slot = r.choice([0, 1])
+        load, store = r.choice([("SLOAD", "SSTORE"), ("SLOAD", "SSTORE"), ("TLOAD", "TSTORE")])
+        items = self.call(0)
+        items += [("push", slot), load, ("push", r.choice([1, 3])), "ADD", ("push", slot), store]
+        items += [("push", slot), load, ("push", r.choice([0, 32])), "MSTORE"]
+        return items
+
     def create(self):
         r = self.r
         rt = assemble([("push", r.choice([0, 7])), "PUSH0", "SSTORE", "STOP"]) if r.random() < 0.5 else assemble(["CALLER", "PUSH0", "MSTORE", ("push", 32), "PUSH0", "RETURN"])
@@ -243,10 +314,49 @@ class Gen:
         return items
 
 
-def callee_pool(rng, n=3):
+def branchy_callee(rng):
+    """callee with 2-3 paths selected by its argument / value / caller; each path has its own
+    effect and its own ending (return / revert / invalid / stop)"""
+    lab = [0]
+
+    def ending(tag):
+        e = rng.choice(["return", "revert", "revert", "invalid", "stop"])
+        pre = [("push", 0x10 + tag), ("push", rng.choice([0, 1, 2])), rng.choice(["SSTORE", "SSTORE", "TSTORE"])] if rng.random() < 0.8 else []
+        pre += [("push", 0xA0 + tag), "PUSH0", "MSTORE"]
+        if e == "return":
+            return pre + [("push", 32), "PUSH0", "RETURN"]
+        if e == "revert":
+            return pre + [("push", rng.choice([0, 32])), "PUSH0", "REVERT"]
+        if e == "invalid":
+            return pre + ["INVALID"]
+        return pre + ["STOP"]
+
+    def cond():
+        c = rng.random()
+        if c < 0.6:
+            return ["PUSH0", "CALLDATALOAD", ("push", rng.choice([0, 1, 5, 7, 1 << 255])), rng.choice(["LT", "GT", "EQ", "SLT"])]
+        if c < 0.8:
+            return ["CALLVALUE", "ISZERO"]
+        if c < 0.9:
+            return ["CALLER", ("push", rng.choice([0x1000, 0xBEEF])), "EQ"]
+        return ["PUSH0", "SLOAD", "PUSH0", "CALLDATALOAD", "LT"]
+
+    items = cond() + [("ref", "B1"), "JUMPI"]
+    if rng.random() < 0.5:
+        items += cond() + [("ref", "B2"), "JUMPI"] + ending(1) + [("label", "B2")] + ending(2)
+    else:
+        items += ending(1)
+    items += [("label", "B1")] + ending(3)
+    return items
+
+
+def callee_pool(rng, n=3, branchy=0.0):
     """small callee contracts that observe their context and have effects"""
     out = []
     for i in range(n):
+        if branchy and rng.random() < branchy:
+            out.append(assemble(branchy_callee(rng)))
+            continue
         k = rng.choice(["store_arg", "echo_ctx", "revert_after_store", "invalid_after_store", "bump", "ret_long"])
         if k == "store_arg":
             items = ["PUSH0", "CALLDATALOAD", ("push", 1), "SSTORE", "CALLER", "PUSH0", "MSTORE", ("push", 32), "PUSH0", "RETURN"]
@@ -262,3 +372,47 @@ def callee_pool(rng, n=3):
             items = ["ADDRESS", "PUSH0", "MSTORE", "ORIGIN", ("push", 32), "MSTORE", "CALLDATASIZE", ("push", 64), "MSTORE", ("push", 96), "PUSH0", "RETURN"]
         out.append(assemble(items))
     return out
+
+
+DIRTY = [0x17F, 0x100, 0x1FF, 0x8000, 0x18000, 0x7FFF, 0xFF80, (1 << 160) + 5, (1 << 255) | 0x7F, (1 << 256) - 0x81, 0x80, 0x7F, 0xFE, 2, 4,
+         (1 << 64) - 1, (1 << 64) + 1, (1 << 127), (1 << 128) - 1, (1 << 248), (1 << 248) - 1, 0xFF << 248, 0x0102030405060708090A0B0C0D0E0F101112131415161718191A1B1C1D1E1F20]
+
+
+def opgrid_program(rng, nargs=2, nops=6):
+    """`nops` single operations over mixes of concrete (boundary / dirty), symbolic and
+    Bool-typed operands; each result is stored to memory and everything is returned, so every
+    concrete fast path of the word type is compared with the reference on its edge cases."""
+    def operand():
+        c = rng.random()
+        if c < 0.38:
+            return [("push", rng.choice(BOUNDARY))]
+        if c < 0.62:
+            return [("push", rng.choice(DIRTY))]
+        if c < 0.7:
+            return [("push", rng.randrange(0, 300))]
+        if c < 0.85:
+            return [("push", 4 + 32 * rng.randrange(nargs)), "CALLDATALOAD"]
+        if c < 0.93:   # Bool-typed word: concrete or symbolic comparison
+            x = [("push", rng.choice([0, 1, 5]))] if rng.random() < 0.5 else [("push", 4), "CALLDATALOAD"]
+            return x + [("push", rng.choice([0, 3, 5])), rng.choice(["LT", "GT", "EQ", "SLT"])] if rng.random() < 0.7 else x + ["ISZERO"]
+        return [rng.choice(["CALLER", "CALLVALUE", "ADDRESS"])]
+
+    items = []
+    for i in range(nops):
+        c = rng.random()
+        if c < 0.12:
+            items += operand() + [rng.choice(UN)]
+        elif c < 0.22:
+            items += operand() + operand() + operand() + [rng.choice(TERN)]
+        else:
+            op = rng.choice(BIN)
+            a, b = operand(), operand()
+            if op in ("BYTE", "SHL", "SHR", "SAR", "SIGNEXTEND") and rng.random() < 0.8:
+                b = [("push", rng.choice([0, 1, 2, 7, 8, 15, 16, 30, 31, 32, 33, 127, 128, 255, 256, 257]))]
+            if op == "EXP":
+                b = [("push", rng.choice([0, 1, 2, 3, 10, 255, 256]))]
+                if rng.random() < 0.5:
+                    a = [("push", rng.choice([0, 1, 2, 3, 8, 77, (1 << 128) + 1]))]
+            items += a + b + [op]
+        items += [("push", 32 * i), "MSTORE"]
+    return items + [("push", 32 * nops), "PUSH0", "RETURN"]
